@@ -132,6 +132,7 @@ fn new_value(old: F, kind: &str, seed: u64) -> F {
     match kind {
         "zero" => F::ZERO,
         "one" => F::ONE,
+        "set" => F::from_canonical_u64(seed % crate::core::P),
         "random" => F::from_canonical_u64(Rng::new(seed).felt()),
         _ => old + F::ONE,
     }
